@@ -150,17 +150,19 @@ impl World {
         let x = hash_byte(h);
         let private_key = SecretKey::from_slice(&[42; 32]).unwrap();
         let ts = self.fx.clock_now().as_secs() - 10;
-        Invoice::Bolt11(
-            InvoiceBuilder::new(Currency::Regtest)
-                .description("test".into())
-                .payment_hash(Sha256Hash::hash(&preimage(h).0))
-                .payment_secret(PaymentSecret([x; 32]))
-                .duration_since_epoch(Duration::from_secs(ts))
-                .min_final_cltv_expiry_delta(144)
-                .amount_milli_satoshis(a * UNIT * 1000)
-                .build_signed(|hash| Secp256k1::new().sign_ecdsa_recoverable(hash, &private_key))
-                .unwrap(),
-        )
+        let b = InvoiceBuilder::new(Currency::Regtest)
+            .description("test".into())
+            .payment_hash(Sha256Hash::hash(&preimage(h).0))
+            .payment_secret(PaymentSecret([x; 32]))
+            .duration_since_epoch(Duration::from_secs(ts))
+            .min_final_cltv_expiry_delta(144);
+        let sign = |hash: &bitcoin::secp256k1::Message| Secp256k1::new().sign_ecdsa_recoverable(hash, &private_key);
+        // a = 0: an AMOUNTLESS invoice (the payer chooses the amount)
+        Invoice::Bolt11(if a == 0 {
+            b.build_signed(sign).unwrap()
+        } else {
+            b.amount_milli_satoshis(a * UNIT * 1000).build_signed(sign).unwrap()
+        })
     }
 
     fn sign_cp(&self, cc: &TestChannelContext, n: u64, off: Vec<HTLCInfo2>, rcv: Vec<HTLCInfo2>) -> Result<Value, Status> {
@@ -374,7 +376,7 @@ impl World {
             for h in &self.cfg.hashes {
                 let ph = payment_hash(h);
                 inv.insert(h.clone(), match st.invoices.get(&ph) {
-                    None => json!({"amt": 0, "ks": false, "old": false}),
+                    None => json!({"amt": -1, "ks": false, "old": false}),
                     Some(p) => json!({
                         "amt": if p.amount_msat % (UNIT * 1000) == 0 { (p.amount_msat / (UNIT * 1000)) as i64 } else { -2 },
                         "ks": format!("{}", p.payment_type) == "keysend",
